@@ -43,6 +43,9 @@ impl<T: Read + Seek> E57Reader<T> {
         let mut reader = PagedReader::new(reader, header.page_size)
             .read_err("Failed creating paged CRC reader")?;
 
+        // The header was read without the CRC layer, make sure its page is valid
+        Self::validate_header_page(&mut reader)?;
+
         // Read and parse XML data
         let xml_raw = Self::extract_xml(
             &mut reader,
@@ -181,6 +184,9 @@ impl<T: Read + Seek> E57Reader<T> {
         let mut paged_reader =
             PagedReader::new(reader, page_size).read_err("Failed creating paged CRC reader")?;
 
+        // The header was read without the CRC layer, make sure its page is valid
+        Self::validate_header_page(&mut paged_reader)?;
+
         // Read XML data
         Self::extract_xml(&mut paged_reader, xml_offset, xml_length as usize)
     }
@@ -194,6 +200,16 @@ impl<T: Read + Seek> E57Reader<T> {
             .read_exact(&mut buf)
             .read_err(format!("Cannot read {name} bytes"))?;
         Ok(u64::from_le_bytes(buf))
+    }
+
+    fn validate_header_page(reader: &mut PagedReader<T>) -> Result<()> {
+        let mut header = [0_u8; 48];
+        reader
+            .seek_physical(0)
+            .read_err("Cannot seek to file header")?;
+        reader
+            .read_exact(&mut header)
+            .read_err("Failed to validate the page with the file header")
     }
 
     fn extract_xml(reader: &mut PagedReader<T>, offset: u64, length: usize) -> Result<Vec<u8>> {
